@@ -386,6 +386,9 @@ def devolve(s: G.Schema, rng: random.Random):
     Returns (old schema, mapping new-def-id -> old def)."""
     memo: dict = {}
     old = copy.deepcopy(s, memo)
+    force = getattr(s, "force_devolve", False)  # corpus schemas: every permitted step happens
+    if force:
+        old.force_devolve = False
     mapping = {}
     for k, v in memo.items():
         if isinstance(v, (G.MsgDef, G.EnumDef, G.AliasDef)):
@@ -395,7 +398,7 @@ def devolve(s: G.Schema, rng: random.Random):
     def shrink_type(t):
         nonlocal changed
         if isinstance(t, G.TArray):
-            if t.ext and t.cap > 1 and rng.random() < 0.6:
+            if t.ext and t.cap > 1 and (force or rng.random() < 0.6):
                 t.cap = rng.randint(1, t.cap - 1)
                 changed += 1
             shrink_type(t.elem)
@@ -407,8 +410,8 @@ def devolve(s: G.Schema, rng: random.Random):
         elif isinstance(d, G.MsgDef):
             for n in d.nested:
                 visit(n)
-            if d.ext and d.fields and rng.random() < 0.6:
-                k = rng.randint(1, len(d.fields))
+            if d.ext and d.fields and (force or rng.random() < 0.6):
+                k = 1 if force else rng.randint(1, len(d.fields))
                 keep = sorted(d.fields, key=lambda f: f.num)[: len(d.fields) - k]
                 keepset = {id(f) for f in keep}
                 d.fields = [f for f in d.fields if id(f) in keepset]
@@ -480,9 +483,14 @@ def check_c05(run: common.Run, drv: common.Driver, rng: random.Random, n_chains:
     opts.ext_prob = 0.7
     opts.scalar_prob = 0.35
     opts.max_bits = 1500
-    for start in range(0, n_chains, 20):
-        _check_c05(run, drv, rng, min(20, n_chains - start), n_values, opts)
-    check_c05_c(run, drv, rng, max(10, n_chains // 4), n_values, opts)
+    from . import corpus
+    deep = n_chains > 100
+    evo = corpus.evolution_schemas(deep)
+    G.SchemaGen.corpus_queue = list(evo) + list(G.SchemaGen.corpus_queue)
+    for start in range(0, max(n_chains, len(evo) + 8), 20):
+        _check_c05(run, drv, rng, min(20, max(n_chains, len(evo) + 8) - start), n_values, opts)
+    G.SchemaGen.corpus_queue = corpus.evolution_schemas(deep)
+    check_c05_c(run, drv, rng, max(10, n_chains // 4, len(evo) + 4), n_values, opts)
 
 
 def _check_c05(run, drv, rng, n_chains, n_values, opts) -> None:
